@@ -311,3 +311,10 @@ pub fn pct(b: &[u8]) -> String {
     }
     out
 }
+
+/// media type application/json, parameters (if any) ignored
+pub fn is_json_media_type(v: &[u8]) -> bool {
+    let main = v.split(|b| *b == b';').next().unwrap_or(&[]);
+    let main: Vec<u8> = main.iter().copied().filter(|b| *b != b' ' && *b != b'\t').collect();
+    main.eq_ignore_ascii_case(b"application/json")
+}
